@@ -126,3 +126,65 @@ Ltac tie_close :=
   tie_inj;
   first [ reflexivity | (exfalso; lia) | discriminate | (exfalso; tie_bools; lra) | (exfalso; tie_bools; tie_abs; lra)
         | (tie_comp; first [reflexivity | tie_zarith | tie_real]) | idtac ].
+
+(* ---- tensor kernels (harness/srctie.py, VecTr) ---- *)
+Definition clamp01 (x : R) : R := Rmax 0 (Rmin 1 x).
+
+Lemma sigmoid_01 x : (0 < sigmoid ROps x < 1)%R.
+Proof.
+  rewrite sigmoid_R. pose proof (exp_pos (- x)) as H.
+  split.
+  - apply Rdiv_lt_0_compat; lra.
+  - apply (Rmult_lt_reg_r (1 + exp (- x))); [lra|]. unfold Rdiv. rewrite Rmult_assoc, Rinv_l by lra. lra.
+Qed.
+
+Lemma clamp01_id x : (0 <= x <= 1)%R -> clamp01 x = x.
+Proof. intros [H0 H1]. unfold clamp01. rewrite Rmin_right by lra. apply Rmax_right; lra. Qed.
+
+Lemma clamp01_sigmoid x : clamp01 (sigmoid ROps x) = sigmoid ROps x.
+Proof. apply clamp01_id. pose proof (sigmoid_01 x). lra. Qed.
+
+Lemma map_clamp01_sigmoid l : map clamp01 (map (sigmoid ROps) l) = map (sigmoid ROps) l.
+Proof. rewrite map_map. apply map_ext. intros; apply clamp01_sigmoid. Qed.
+
+Lemma linearb_vadd W c v : vadd ROps (matvecb ROps W v) c = linearb ROps W c v.
+Proof.
+  unfold vadd, matvecb, linearb. revert c; induction W as [|row W IH]; intros [|x c]; try reflexivity.
+  cbn [map combine fst snd]. f_equal. apply IH.
+Qed.
+
+Lemma vadd_comm a b : vadd ROps a b = vadd ROps b a.
+Proof.
+  unfold vadd. revert b; induction a as [|x a IH]; intros [|y b]; try reflexivity.
+  cbn [combine map fst snd]. f_equal; [cbn; lra | apply IH].
+Qed.
+
+Ltac tie_vec_norm :=
+  cbn [nadd nsub nmul ndiv nopp nabs nsqrt nexp nln ncos nsin nofZ nltb n0 n1 ROps] in *;
+  repeat first [ rewrite map_clamp01_sigmoid | rewrite clamp01_sigmoid | rewrite linearb_vadd
+               | rewrite (vadd_comm _ (matvecb ROps _ _)), linearb_vadd ].
+Ltac tie_vec_close :=
+  first [ reflexivity | lra | ring | (unfold Rdiv; ring) | (field; lra)
+        | (apply (f_equal2 pair); first [reflexivity | lra | ring])
+        | (f_equal; first [reflexivity | lra | ring]) ].
+
+(* elementwise vector operations of the tensor kernels (binary ones through [combine], like torch on equal shapes) *)
+Definition vmul (a b : list R) : list R := map (fun p => (fst p * snd p)%R) (combine a b).
+Definition vaddc (c : R) (a : list R) : list R := map (Rplus c) a.
+Definition vatan2 (a b : list R) : list R := map (fun p => Ratan2 (fst p) (snd p)) (combine a b).
+
+(* a pipeline of elementwise operations over four base vectors equals one map over the combined arguments:
+   simultaneous induction, each component closed by ring / lra *)
+Ltac tie_vec4 a b c d :=
+  revert b c d; induction a as [|xa a IHa]; intros [|xb b] [|xc c] [|xd d]; cbn; try reflexivity;
+  try (apply (f_equal2 Rplus);
+       [first [reflexivity | lra | ring | (f_equal; first [lra | ring]) | (f_equal; f_equal; first [lra | ring])
+              | (f_equal; f_equal; f_equal; first [lra | ring])] | apply IHa]).
+
+Lemma dot_vadd_scale (s : R) (b : list R) : forall v vp : list bool, length v = length b -> length vp = length b ->
+  dot ROps (vadd ROps (map (b2t ROps) v) (vscale ROps s (map (b2t ROps) vp))) b = (dotb ROps b v + s * dotb ROps b vp)%R.
+Proof.
+  induction b as [|x b IH]; intros [|bv v] [|bp vp] Hv Hp; cbn in Hv, Hp; try discriminate; cbn; [lra|].
+  injection Hv as Hv. injection Hp as Hp. specialize (IH v vp Hv Hp).
+  unfold vadd, vscale in IH. cbn in IH. rewrite IH. destruct bv, bp; cbn; lra.
+Qed.
